@@ -230,6 +230,10 @@ DRIVER = os.path.join(LEAN, ".lake", "build", "bin", "iox2driver")
 
 
 def run_model(component, ops_text):
+    for _ in range(120):           # the binary is replaced while another build relinks it
+        if os.path.exists(DRIVER):
+            break
+        time.sleep(0.5)
     p = subprocess.run([DRIVER, component], input=ops_text, capture_output=True, text=True)
     if p.returncode != 0:
         raise RuntimeError(f"driver failed: {p.stderr[-500:]}")
